@@ -69,7 +69,7 @@ fn check<R: Res + From<i64>>(case: &Case, pop: &Pop<R>, probe: &mut Probe) -> Re
                     ind.genome
                 );
                 ensure!(
-                    allowed.ok,
+                    allowed.ok || allowed.unconstrained,
                     "select/must-fail-but-succeeded",
                     "draw {draw}: {:?} on a population of {n} (result counts {lens:?}) returned individual {} but must report {:?}",
                     case.spec,
@@ -78,6 +78,10 @@ fn check<R: Res + From<i64>>(case: &Case, pop: &Pop<R>, probe: &mut Probe) -> Re
                 );
             }
             Ok(Err((kind, text, dbg))) => {
+                if allowed.unconstrained {
+                    probe.label("unconstrained configuration (dynamic weight total exceeds usize): any error accepted");
+                    continue;
+                }
                 ensure!(
                     kind != Kind::Other,
                     "select/undocumented-error",
@@ -157,7 +161,7 @@ pub fn spec_strategy(n_hint: usize, m_hint: usize, depth: u32) -> BoxedStrategy<
         3 => c.prop_map(Spec::Lexicase),
     ];
     let weight = || prop_oneof![3 => Just(0u32), 3 => Just(1u32), 2 => 2u32..10, 1 => Just(u32::MAX / 4), 1 => Just(u32::MAX)];
-    let dweight = || prop_oneof![3 => Just(0usize), 3 => Just(1usize), 2 => 2usize..10, 1 => Just(1usize << 31)];
+    let dweight = || prop_oneof![6 => Just(0usize), 6 => Just(1usize), 4 => 2usize..10, 2 => Just(1usize << 31), 1 => Just(usize::MAX), 1 => Just(usize::MAX / 2 + 1)];
     leaf.prop_recursive(depth, 24, 4, move |inner| {
         let wleaf = (inner.clone(), weight()).prop_map(|(s, w)| WSpec::Leaf(Box::new(s), w));
         let wtree = wleaf.prop_recursive(3, 8, 2, |w| (w.clone(), w).prop_map(|(a, b)| WSpec::Node(Box::new(a), Box::new(b))));
